@@ -464,6 +464,13 @@ class C16(F.Check):
               ("pow<2>(SPEED_OF_LIGHT)", _si()["SPEED_OF_LIGHT"].pow(2), (m / s).pow(2), "c^2 in m^2/s^2"),
               ("(ELEMENTARY_CHARGE * AVOGADRO_CONSTANT)", _si()["ELEMENTARY_CHARGE"] * _si()["AVOGADRO_CONSTANT"], lib("Coulombs") / lib("Moles"), "Faraday constant"),
               ("(BOLTZMANN_CONSTANT * AVOGADRO_CONSTANT)", _si()["BOLTZMANN_CONSTANT"] * _si()["AVOGADRO_CONSTANT"], lib("Joules") / (lib("Kelvins") * lib("Moles")), "gas constant"),
+              # scaling an already scaled constant by the magnitude ONE (in several spellings) changes nothing
+              ("(mag<1>() * (mag<2>() * SPEED_OF_LIGHT))", _si()["SPEED_OF_LIGHT"].scaled(2), (m / s), "1 * (2 c) in m/s"),
+              ("((mag<2>() * SPEED_OF_LIGHT) * mag<1>())", _si()["SPEED_OF_LIGHT"].scaled(2), (m / s), "(2 c) * 1 in m/s"),
+              ("((SPEED_OF_LIGHT / mag<4>()) / mag<1>())", _si()["SPEED_OF_LIGHT"].scaled(Fraction(1, 4)), (m / s), "(c / 4) / 1 in m/s"),
+              ("((mag<6>() / mag<2>() / mag<3>()) * (mag<5>() * SPEED_OF_LIGHT))", _si()["SPEED_OF_LIGHT"].scaled(5), (m / s), "(6/2/3) * (5 c) in m/s"),
+              ("(make_constant(meters * mag<3>()) * mag<1>())", m.unit.scaled(3), m, "constant(3 m) * 1 in m"),
+              ("(mag<1>() * make_constant(meters / mag<8>()))", m.unit.scaled(Fraction(1, 8)), pre("Milli", m), "1 * constant(m / 8) in mm"),
               ("(SPEED_OF_LIGHT / CESIUM_HYPERFINE_TRANSITION_FREQUENCY)", _si()["SPEED_OF_LIGHT"] / _si()["CESIUM_HYPERFINE_TRANSITION_FREQUENCY"], pre("Milli", m), "Cs wavelength in mm")]
         for i, (expr, cu, tu, what) in enumerate(cv):
             r = U.ratio(cu, tu.unit)
